@@ -20,59 +20,88 @@ def run(ctx):
         run_harness(ctx, "vadt", ["c42", "--replay", ctx.replay, "--out", ctx.path("res.json")])
         res = json.load(open(ctx.path("res.json")))
         for v in res["violations"]:
-            report_violation(ctx, v)
+            report_violation(ctx, v, key=v.get("known_key"))
         write_evidence(ctx, "model_checking", {"states": 1, "transitions": 1, "traces_validated_against_impl": res["evaluations"],
                                                "samples": [json.load(open(ctx.replay)).get("case")]})
         return
+    T = dict(STAR="FALSE", SUBQ="FALSE")
     if ctx.quick:
-        runs = [("exh", dict(MAXN=3, MAXNC=1, SAMPLE=0)), ("exh2", dict(MAXN=2, MAXNC=4, SAMPLE=0)), ("smp", dict(MAXN=5, MAXNC=2, SAMPLE=12))]
+        runs = [("exh", "tree", dict(T, MAXN=3, MAXNC=1, SAMPLE=0)), ("exh2", "tree", dict(T, MAXN=2, MAXNC=4, SAMPLE=0)),
+                ("smp", "tree", dict(T, MAXN=5, MAXNC=2, SAMPLE=10)),
+                ("subq", "subq", dict(T, MAXN=5, MAXNC=2, SAMPLE=10, SUBQ="TRUE")),
+                ("star", "star", dict(T, MAXN=7, MAXNC=2, SAMPLE=8, STAR="TRUE"))]
     else:
-        runs = [("exh", dict(MAXN=3, MAXNC=2, SAMPLE=0)), ("exh2", dict(MAXN=2, MAXNC=4, SAMPLE=0)), ("exh4", dict(MAXN=4, MAXNC=1, SAMPLE=0)),
-                ("smp", dict(MAXN=5, MAXNC=2, SAMPLE=150)), ("smp3", dict(MAXN=5, MAXNC=4, SAMPLE=150))]
+        runs = [("exh", "tree", dict(T, MAXN=3, MAXNC=2, SAMPLE=0)), ("exh2", "tree", dict(T, MAXN=2, MAXNC=4, SAMPLE=0)),
+                ("exh4", "tree", dict(T, MAXN=4, MAXNC=1, SAMPLE=0)),
+                ("smp", "tree", dict(T, MAXN=5, MAXNC=2, SAMPLE=150)), ("smp3", "tree", dict(T, MAXN=5, MAXNC=4, SAMPLE=150)),
+                ("subq", "subq", dict(T, MAXN=5, MAXNC=3, SAMPLE=150, SUBQ="TRUE")),
+                ("subq4", "subq", dict(T, MAXN=4, MAXNC=1, SAMPLE=0, SUBQ="TRUE")),
+                ("star", "star", dict(T, MAXN=7, MAXNC=3, SAMPLE=60, STAR="TRUE"))]
 
     def one(job):
-        tag, c = job
+        tag, mode, c = job
         cfg = ctx.path(tag + ".cfg")
         open(cfg, "w").write(cfg_text(c, ["SpecOK", "Emit"]))
-        return tag, c, tlc(ctx, "adt/TreeWalk", cfg=cfg, workers=2, deadlock=False, tag=tag, timeout=3000, mode_args=["-seed", str(ctx.seed)])
+        return tag, mode, c, tlc(ctx, "adt/TreeWalk", cfg=cfg, workers=2, deadlock=False, tag=tag, timeout=3000, mode_args=["-seed", str(ctx.seed)])
 
     with ThreadPoolExecutor(max_workers=2) as ex:
         results = list(ex.map(one, runs))
     cases, gen, states, transitions = [], [], 0, 0
-    for tag, c, r in results:
+    SUBQ_METHODS = {"apply", "visit", "transform_down", "transform_up", "transform_down_up", "rewrite"}
+    for tag, mode, c, r in results:
         if not r.ok or r.invariant_violated:
             sys.stderr.write("\n".join(l for l in r.out.splitlines() if not l.startswith("<<"))[-3000:])
             raise ToolError(f"TLC run {tag} of TreeWalk failed (specification-level)")
         cs = tlc_cases(r.out)
         uniq = list({json.dumps(x, sort_keys=True): x for x in cs}.values())
-        gen.append({"run": tag, "constants": c, "cases": len(uniq), "distinct_states": r.distinct})
+        if mode == "subq":
+            # the *_with_subqueries family exists for these methods; keep the cases that contain an embedded subquery
+            uniq = [x for x in uniq if x["method"] in SUBQ_METHODS and x["subs"]]
+        for x in uniq:
+            x["mode"] = mode
+        gen.append({"run": tag, "mode": mode, "constants": c, "cases": len(uniq), "distinct_states": r.distinct})
         cases += uniq
         states += r.distinct
         transitions += max(r.generated, 1)
     cases = list({json.dumps(x, sort_keys=True): x for x in cases}.values())
     methods = {c["method"] for c in cases}
-    shapes = {json.dumps(c["size"]) for c in cases}
-    if len(methods) != 8 or len(shapes) < 20 or len(cases) < 2000:
-        raise ToolError(f"vacuity: methods {methods}, tree shapes {len(shapes)}, cases {len(cases)}")
+    shapes = {json.dumps(c["size"]) for c in cases if c["mode"] == "tree"}
+    nsub = sum(1 for c in cases if c["mode"] == "subq")
+    nstar = sum(1 for c in cases if c["mode"] == "star")
+    if len(methods) != 9 or len(shapes) < 20 or len(cases) < 2000 or nsub < 100 or nstar < 100:
+        raise ToolError(f"vacuity: methods {methods}, tree shapes {len(shapes)}, cases {len(cases)}, subquery cases {nsub}, star cases {nstar}")
     write_ndjson(ctx.path("cases.ndjson"), cases)
     summary, _ = run_harness(ctx, "vadt", ["c42", "--in", ctx.path("cases.ndjson"), "--out", ctx.path("res.json")], timeout=3000)
     res = json.load(open(ctx.path("res.json")))
-    for v in res["violations"][:5]:
-        report_violation(ctx, v)
-    if len(res["per_tree_type"]) != 3:
-        raise ToolError("not every tree type was driven")
+    n_unknown = 0
+    for v in res["violations"]:
+        if v.get("known_key"):
+            report_violation(ctx, v, key=v["known_key"])
+        elif n_unknown < 5:
+            n_unknown += 1
+            report_violation(ctx, v)
+    want = ["Expr", "LogicalPlan", "Arc<dyn PhysicalExpr>", "Arc<dyn ExecutionPlan>", "ExprContext<String>", "PlanContext<String>",
+            "LogicalPlan+subqueries"]
+    missing = [t for t in want if t not in res["per_tree_type"]]
+    missing += [p + "/*" + suf for p, suf in res["expected_variants"]
+                if not any(k.startswith(p + "/") and k.endswith(suf) for k in res["per_tree_type"])]
+    if missing:
+        raise ToolError(f"vacuity: tree types / node variants never driven: {missing}")
     sample = [c for c in cases if len(c["size"]) >= 4 and c["method"] == "rewrite" and "J" in json.dumps(c["dec"]) and c["tr"] == 1][:1] or cases[:1]
     write_evidence(ctx, "model_checking", {
         "states": states, "transitions": transitions,
         "traces_validated_against_impl": res["evaluations"],
         "samples": sample, "exhaustive": True,
         "case_generation": gen, "cases": len(cases), "methods": sorted(methods), "tree_shapes": len(shapes),
-        "per_tree_type": res["per_tree_type"], "callbacks_compared": res["callbacks_compared"],
+        "per_tree_type_or_variant": res["per_tree_type"], "node_variants_driven": len(res["expected_variants"]),
         "distinct_nontrivial": res["distinct_nontrivial"], "violations_total": res["violations_total"],
-        "contract_invariants": ["OrderOK", "OnceOK", "JumpOK", "UpJumpOK", "StopOK", "StopTnr", "MarksOK", "NestOK", "ExistsOK"],
+        "subquery_cases": nsub, "star_cases": nstar, "contract_invariants": ["OrderOK", "OnceOK", "JumpOK", "UpJumpOK", "StopOK", "StopTnr", "MarksOK", "NestOK", "ExistsOK"],
         "rule": "a case = tree shape x method x decision vector x change vector; non-trivial = some Jump/Stop decision or a reported change; distinct = distinct cases",
     }, assumptions=[
-        "real nodes: Expr = Column / Alias / ScalarFunction(udf); LogicalPlan = EmptyRelation / SubqueryAlias / Extension; Arc<dyn PhysicalExpr> = a harness PhysicalExpr node (DynTreeNode path); other Expr / LogicalPlan variants' child enumeration and Arc<dyn ExecutionPlan> are not driven",
+        "general trees use labelled nodes: Expr = Column / Alias / ScalarFunction(udf); LogicalPlan = EmptyRelation / SubqueryAlias / Extension; Arc<dyn PhysicalExpr> and Arc<dyn ExecutionPlan> = harness nodes (DynTreeNode path); ExprContext / PlanContext (ConcreteTreeNode path, payload kept in sync is checked)",
+        "child enumeration of the other variants is driven by STAR cases (root + k leaves): every Expr variant with children except HigherOrderFunction, 16 LogicalPlan variants for inputs, 15 for apply_expressions / map_expressions; the expected node is rebuilt independently in documented field order and compared with ==",
+        "*_with_subqueries: one-child model nodes listed in `subs` are LogicalPlan::Subquery nodes embedded through Exists / InSubquery / ScalarSubquery in an Extension node's or a Filter's expressions; a Jump returned from an embedded subquery is absorbed at the expression boundary (the engine's expression walk turns it into Continue) - modelled by SUBQ",
+        "not driven: Expr::HigherOrderFunction, LogicalPlan variants Explain / Dml / Copy / Ddl / Unnest / Statement / TableScan filters, map_uncorrelated_subqueries",
         "a reported replacement keeps the children and re-labels the node; callbacks that change the tree shape are out of scope",
         "LogicalPlan subquery traversal (apply_with_subqueries etc.) is not driven",
         "binding demonstrated while building: the first version of the Jump invariant (f_down Jump also skips the node's own f_up) was rejected by TLC against the transcribed semantics and corrected from the documentation of TreeNodeRecursion::Jump",
